@@ -17,7 +17,7 @@ ALLOWED_UNITS = {"src/core/mem.c": {"malloc", "realloc", "free", "memFree"},
 RESIZE_AUDITED = {
     ("bakeBSTSRunB", "M2"): "accumulates the received protocol message M2 (public transcript)",
     ("bakeBSTSRunA", "M3"): "accumulates the received protocol message M3 (public transcript)",
-    ("utilOnExit", "b"): "table of at-exit function pointers",
+    ("utilOnExit", "_fns"): "table of at-exit function pointers",
 }
 
 
@@ -234,12 +234,12 @@ def check_typestate(prog, res):
                            detail="closed (or escaped to its owner) on all %d return states explored" % nret)
         # R15.5
         for line, var, arg in cl.resize_sites:
-            if (f.name, var) in RESIZE_AUDITED:
+            if (f.name, arg) in RESIZE_AUDITED:
                 res.proved("R15.5-resize-audited", function=f.name, file=f.relfile, line=line,
-                           construct="blobResize -> %s" % var, detail=RESIZE_AUDITED[(f.name, var)], nontrivial=False)
+                           construct="blobResize(%s, ..)" % arg, detail=RESIZE_AUDITED[(f.name, arg)], nontrivial=False)
             else:
                 res.violation("R15.5-resize-audited", function=f.name, file=f.relfile, line=line,
-                              construct="blobResize -> %s" % var,
+                              construct="blobResize(%s, ..)" % arg,
                               detail="blobResize grows through realloc, which may free the old block without wiping it; "
                                      "this call site is not on the audited list of non-secret buffers")
     res.floor("blob creation sites", nsites, 100)
